@@ -171,6 +171,12 @@ def check_case(st, form, props, addl, supplied, extra, rank):
                 st.violation("extra-member-altered", "%s: extra member came back as %r" % (case, res["zz"]), case, rank)
         except Exception as exc:
             st.violation("extra-member-lost", "%s: %r" % (case, exc), case, rank)
+    if omitted_defaulted and all(OPTIONS[oi][0].find("invalid") < 0 for jn, pn, oi in props):
+        before = impl.canon_result(res)
+        if scribble(res):
+            k2, res2 = impl.do_call(model, value)
+            if k2 != impl.ACCEPT or impl.canon_result(res2) != before:
+                st.violation("default-shared-with-earlier-result", "%s: after the owner of the first result edited it in place, building again from %s gives %r" % (case, value, res2), {**case, "value": value}, rank)
     if omitted_defaulted:
         st.add("nontrivial")
     st.outcome("ok")
@@ -188,6 +194,32 @@ def prop_sets():
             continue
         out.append(combo)
     return out
+
+
+def scribble(x, depth=0):
+    """Edit every container of a result in place, the way its owner may (append to lists, add a member to plain mappings)."""
+    n = 0
+    if depth > 6:
+        return 0
+    if isinstance(x, list):
+        for i in list(x):
+            n += scribble(i, depth + 1)
+        x.append("<scribbled>")
+        return n + 1
+    if isinstance(x, dict):
+        for i in list(x.values()):
+            n += scribble(i, depth + 1)
+        try:
+            x["<scribbled>"] = 1
+            n += 1
+        except Exception:
+            pass
+        return n
+    d = getattr(x, "_dict", None)
+    if isinstance(d, dict):
+        for i in list(d.values()):
+            n += scribble(i, depth + 1)
+    return n
 
 
 def no_value_cases(st, lo, hi):
@@ -211,6 +243,14 @@ def no_value_cases(st, lo, hi):
         st.add("nontrivial")
         k2, r2 = impl.do_call(factory(), copy.deepcopy(d))
         if k2 == impl.ACCEPT:
+            # a valid default is converted as if supplied, so what one caller does to ITS result afterwards cannot
+            # reach the next caller: scribble over the first result, ask again
+            before = impl.canon_result(res)
+            if scribble(res):
+                k3, r3 = impl.do_call(el, NP)
+                if k3 != impl.ACCEPT or impl.canon_result(r3) != before:
+                    st.violation("no-value-default-shared-with-earlier-result", "%s: default %r; after the first caller edited its own result in place, calling with no value again gives %r" % (label, d, r3), case)
+                res = r3 if k3 == impl.ACCEPT else res
             if impl.canon_result(res) != impl.canon_result(r2):
                 st.violation("no-value-default-not-converted", "%s: default %r is valid; called with no value gives %r, supplied explicitly gives %r" % (label, d, res, r2), case)
         else:
